@@ -112,6 +112,16 @@ class C09Bounded(Bounded):
                             seen[kind] = seen.get(kind, 0) + 1
                             if seen[kind] == 1:
                                 fails.append({"text": f"rule set {sname}: document order {[docs[i]['title'] for i in perm]} via {lname} gives {str(out)[:260]}, order {[docs[i]['title'] for i in ref[1]]} via {ref[2]} gives {str(ref[0])[:260]}", "input": [sname, list(perm), lname]})
+                # loading reads the parsed documents, it does not consume them: the same dict objects can be loaded again with the same outcome
+                ev += 1
+                reused = copy.deepcopy(docs)
+                first = outcome(lambda ds: SigmaCollection.from_dicts(ds), reused)
+                if reused != docs:
+                    changed = [d["title"] for d, e in zip(docs, reused) if d != e]
+                    fails.append({"text": f"rule set {sname}: from_dicts modified the documents it was given ({changed}): {[e for d, e in zip(docs, reused) if d != e][:1]}", "input": [sname, "input modified"]})
+                second = outcome(lambda ds: SigmaCollection.from_dicts(ds), reused)
+                if first != second:
+                    fails.append({"text": f"rule set {sname}: loading the same parsed documents a second time gives {str(second)[:200]} instead of {str(first)[:200]}", "input": [sname, "loaded twice"]})
                 # expectations that do not depend on order
                 o = ref[0]
                 if sname == "two_generate" and o[0] == "ok":
